@@ -334,6 +334,16 @@ func (e newTorrentEvent) apply(s *state) {
 		ok = false
 	}
 	if !ok {
+		if e.torrent.Complete() {
+			// The request opened its torrent outside of the event loop; the blob
+			// may have been deleted since (RemoveTorrent, cache eviction). Adding
+			// that stale object would report success for, and seed, a blob which
+			// is no longer in the cache.
+			if _, err := s.sched.torrentArchive.Stat(e.namespace, e.torrent.Digest()); err != nil {
+				e.errc <- ErrTorrentRemoved
+				return
+			}
+		}
 		var err error
 		ctrl, err = s.addTorrent(e.namespace, e.torrent, true)
 		if err != nil {
